@@ -258,6 +258,7 @@ type cfg struct {
 	layer                  string
 	kex, algo, cipher, mac string
 	serverRekey            bool // Go<->Go: the server requests the re-key instead of the client
+	secondRekey            bool // Go<->Go: a second forced re-key, requested by the OTHER party, and a third data phase
 	clientLimit            bool // OpenSSH: the client is also given a RekeyLimit
 }
 
@@ -491,6 +492,9 @@ type expect struct {
 	hookClient []ssh.VerifC27KexInfo
 	hookServer []ssh.VerifC27KexInfo
 	who        string // "go-client" or "openssh-client"
+	// exactEpochs > 0: only the first exactEpochs entries of c2s/s2c are compared epoch by
+	// epoch; the rest is compared as one concatenation over the remaining epochs
+	exactEpochs int
 }
 
 func isCBCEtM(c cfg) bool {
@@ -566,10 +570,29 @@ func (e *env) decodeAndCheck(c2s, s2c []byte, cliReads, srvReads [][]byte, x exp
 	}
 	cmp := func(dir string, got map[int][]byte, perEpoch [][]byte, total []byte) {
 		if perEpoch != nil {
-			for i, want := range perEpoch {
+			exact := len(perEpoch)
+			if x.exactEpochs > 0 && x.exactEpochs < exact {
+				exact = x.exactEpochs
+			}
+			for i, want := range perEpoch[:exact] {
 				if !bytes.Equal(got[i+1], want) {
 					e.viol(tag+"decrypted channel data of an epoch differs from what the application sent ("+dir+")", "config", x.cfg.String(),
 						"epoch", i+1, "got", len(got[i+1]), "want", len(want))
+				}
+			}
+			if exact < len(perEpoch) {
+				// data written while a key exchange was in flight: which side of NEWKEYS a packet
+				// travelled on is not determined, the concatenation over the remaining epochs is
+				var g, w []byte
+				for ep := exact + 1; ep <= len(got)+len(perEpoch); ep++ {
+					g = append(g, got[ep]...)
+				}
+				for _, p := range perEpoch[exact:] {
+					w = append(w, p...)
+				}
+				if !bytes.Equal(g, w) {
+					e.viol(tag+"decrypted channel data written around a key exchange differs from what the application sent ("+dir+")", "config", x.cfg.String(),
+						"from_epoch", exact+1, "got", len(g), "want", len(w))
 				}
 			}
 		}
@@ -699,13 +722,22 @@ func (e *env) goRun(cf cfg) {
 	go ssh.DiscardRequests(creqs)
 
 	var sentPerEpoch [][]byte
-	exchange := func(phase int) bool {
+	exchange := func(phase int, sizes []int) bool {
 		var all []byte
-		for _, n := range e.sizes {
+		for _, n := range sizes {
 			p := e.payload(fmt.Sprintf("%s|p%d", label, phase), n)
 			all = append(all, p...)
 			werr := make(chan error, 1)
-			go func() { _, err := ch.Write(p); werr <- err }()
+			// io.Writer: the buffer is the caller's again when Write returns; it is overwritten
+			// at once, while the echo (and, during a key exchange, queued packets) is still in flight
+			buf := append([]byte{}, p...)
+			go func() {
+				_, err := ch.Write(buf)
+				for i := range buf {
+					buf[i] ^= 0xff
+				}
+				werr <- err
+			}()
 			got := make([]byte, n)
 			if _, err := io.ReadFull(ch, got); err != nil {
 				fail(fmt.Sprintf("reading the echo of %d bytes (phase %d)", n, phase), err)
@@ -722,7 +754,7 @@ func (e *env) goRun(cf cfg) {
 		sentPerEpoch = append(sentPerEpoch, all)
 		return true
 	}
-	if !exchange(1) {
+	if !exchange(1, e.sizes) {
 		return
 	}
 	// forced re-key
@@ -741,8 +773,42 @@ func (e *env) goRun(cf cfg) {
 		fail("re-key", errors.New("second key exchange never completed"))
 		return
 	}
-	if !exchange(2) {
+	if !exchange(2, e.sizes) {
 		return
+	}
+	nex, exactEpochs := 2, 0
+	if cf.secondRekey {
+		// third key exchange, requested by the other party: the session identifier is still the
+		// FIRST exchange hash (the previous one is a different value now), and the cipher objects
+		// of the second epoch are replaced in turn. The data phase starts WITHOUT waiting for the
+		// exchange: 12 small writes, each overwritten by the caller as soon as Write returns (the
+		// channel reuses one packet buffer per direction, packets written during a key exchange are
+		// queued), then a large one; after the exchange has completed, a last phase.
+		if cf.serverRekey {
+			rerr = ssh.VerifC27RequestKeyExchange(cc)
+		} else {
+			rerr = ssh.VerifC27RequestKeyExchange(sconn)
+		}
+		if rerr != nil {
+			e.viol("harness: cannot request a key exchange", "error", rerr.Error())
+			fail("second re-key request", rerr)
+			return
+		}
+		var during []int
+		for i := 0; i < 12; i++ {
+			during = append(during, 700+i)
+		}
+		if !exchange(3, append(during, 40000)) {
+			return
+		}
+		if ckey != nil && !waitKex(ckey, 3) {
+			fail("second re-key", errors.New("third key exchange never completed"))
+			return
+		}
+		if !exchange(4, []int{1, 0, 5000}) {
+			return
+		}
+		nex, exactEpochs = 3, 1
 	}
 	ch.CloseWrite()
 	rest, _ := io.ReadAll(ch)
@@ -755,10 +821,13 @@ func (e *env) goRun(cf cfg) {
 	guard.Stop()
 	c.Outcome("go-client: bytes echoed exactly before and after the re-key")
 
-	x := expect{cfg: cf, exchanges: 2, exactEx: true, c2s: sentPerEpoch, s2c: sentPerEpoch, who: "go-client",
+	x := expect{cfg: cf, exchanges: nex, exactEx: true, exactEpochs: exactEpochs, c2s: sentPerEpoch, s2c: sentPerEpoch, who: "go-client",
 		hookClient: kexRecords(ckey), hookServer: kexRecords(skey)}
 	e.decodeAndCheck(c2s.bytes(), s2c.bytes(), cliRand.snapshot(), srvRand.snapshot(), x)
-	c.Nontrivial(fmt.Sprintf("go|%s|%s|server-initiated-rekey=%v", cf.layer, cf.String(), cf.serverRekey))
+	c.Nontrivial(fmt.Sprintf("go|%s|%s|server-initiated-rekey=%v|exchanges=%d", cf.layer, cf.String(), cf.serverRekey, nex))
+	if nex == 3 {
+		c.Outcome("go-client: three key exchanges, the last two requested by different parties")
+	}
 	if c.WantSample() {
 		c.Sample(map[string]any{"peer": "Go client", "config": cf.String(), "wire_bytes": len(c2s.bytes()) + len(s2c.bytes())})
 	}
@@ -999,7 +1068,7 @@ func union(a, b []string) []string {
 func run(c *vf.Ctx) {
 	c.Rule("configurations: (layer 1) every key exchange x every host key algorithm of SupportedAlgorithms()+InsecureAlgorithms() with the cipher/MAC fixed, " +
 		"(layer 2) every cipher x every MAC with kex/host key fixed, (layer 3) every exchange hash size x key material of 1..4 digests; each run = handshake, authentication, session channel, payloads {0,1,200000} bytes echoed, " +
-		"forced re-key, payloads again; once with the Go client over a tapped in-memory pipe, once (where OpenSSH supports the algorithms) with /usr/bin/ssh over loopback TCP. " +
+		"forced re-key, payloads again; for every cipher x MAC pair, every hash size x key length class and every key exchange once (thorough: everywhere) then a SECOND re-key requested by the other party with 12 small writes + 40000 bytes written while that exchange is in flight, and a last data phase (three exchanges, session id = first H; every Write buffer is overwritten by the caller as soon as Write returns); once with the Go client over a tapped in-memory pipe, once (where OpenSSH supports the algorithms) with /usr/bin/ssh over loopback TCP. " +
 		"A case is distinct by (peer, layer, algorithm pair).")
 	c.Assume("standard library primitives (AES, DES, RC4, HMAC, hashes, RSA/ECDSA/Ed25519/DSA verification, ML-KEM) are trusted; ChaCha20, Poly1305, GCM, CTR, CBC framing, key derivation, exchange hashes and negotiation are re-implemented in /verif/ref")
 	c.Assume("for ECDH over NIST curves and ML-KEM the shared secret is taken from the implementation through a hook (ephemeral keys come from process entropy in Go 1.26); H, the signature check, key derivation and packet processing are independent of it")
@@ -1056,16 +1125,23 @@ func run(c *vf.Ctx) {
 		}
 	}
 	goCfgs := append([]cfg{}, cfgs...)
+	for i := range goCfgs {
+		// a second re-key (by the server; the first one is the client's) wherever the key exchange
+		// is cheap: every cipher x MAC pair, every hash size x key length class, and every key
+		// exchange once (with the fixed host key); thorough: everywhere
+		cf := &goCfgs[i]
+		cf.secondRekey = c.Thorough || cf.layer != "kex x hostkey" || cf.algo == fixedAlgo
+	}
 	if c.Thorough {
 		// second pass: the server initiates the re-key, and the fixed halves are different ones
 		for _, k := range e.kex {
 			for _, a := range e.algos {
-				goCfgs = append(goCfgs, cfg{layer: "kex x hostkey", kex: k, algo: a, cipher: "chacha20-poly1305@openssh.com", mac: fixedMAC, serverRekey: true})
+				goCfgs = append(goCfgs, cfg{layer: "kex x hostkey", kex: k, algo: a, cipher: "chacha20-poly1305@openssh.com", mac: fixedMAC, serverRekey: true, secondRekey: true})
 			}
 		}
 		for _, ci := range e.ciphers {
 			for _, m := range e.macs {
-				goCfgs = append(goCfgs, cfg{layer: "cipher x mac", kex: "ecdh-sha2-nistp256", algo: "rsa-sha2-512", cipher: ci, mac: m, serverRekey: true})
+				goCfgs = append(goCfgs, cfg{layer: "cipher x mac", kex: "ecdh-sha2-nistp256", algo: "rsa-sha2-512", cipher: ci, mac: m, serverRekey: true, secondRekey: true})
 			}
 		}
 	}
